@@ -28,6 +28,8 @@ PRESENT_P = [
     [[0, 1, 0], [0, 0, 1], [1, 0, 0]],  # cyclic relabelling
     [[1, 0, 0], [1, 1, 0], [1, 1, 1]],
     [[1, 1, 1], [0, 1, 0], [0, 0, 3]],  # det 3
+    [[0, 1, 0], [1, 0, 0], [0, 0, 1]],  # det -1: the same lattice described in a left-handed basis
+    [[1, 0, 0], [1, 1, 0], [0, 1, -1]],  # det -1, sheared
 ]
 
 
@@ -180,7 +182,13 @@ def present(atoms, rng, p_index=None, rotate=True, translate=True, permute=True,
     if p_index is None:
         p_index = int(rng.integers(len(PRESENT_P)))
     P = np.array(PRESENT_P[p_index])
-    a2 = make_supercell(atoms, P, wrap=True) if p_index else atoms.copy()
+    if p_index and np.linalg.det(P) < 0:
+        # ase.build.make_supercell refuses left-handed matrices: re-describe the lattice directly
+        a2 = atoms.copy()
+        a2.set_cell(P @ atoms.cell[:], scale_atoms=False)
+        a2.wrap()
+    else:
+        a2 = make_supercell(atoms, P, wrap=True) if p_index else atoms.copy()
     if rotate:
         R = random_rotation(rng)
         a2.set_cell(a2.cell[:] @ R.T, scale_atoms=True)
